@@ -663,6 +663,9 @@ pub enum WAttr {
     Mi256(Vec<u8>, Option<u8>),
     /// CRC-32; `Some(x)` xors the value (wrong CRC)
     Fp(Option<u32>),
+    /// CRC-32 computed with the header length of the WHOLE datagram instead of the length that
+    /// ends at this attribute: the RFC value only when it is the last attribute, wrong otherwise
+    FpWhole,
 }
 
 /// Builds wire bytes from a list of attributes; MAC/CRC attributes are computed over
@@ -674,6 +677,7 @@ pub fn build_raw(method: u16, class: u8, txid: &[u8; 12], attrs: &[WAttr], noise
     out.extend_from_slice(&[0, 0]);
     out.extend_from_slice(&COOKIE.to_be_bytes());
     out.extend_from_slice(txid);
+    let mut whole: Vec<usize> = Vec::new();
     for a in attrs {
         let offset = out.len();
         let (typ, value): (u16, Vec<u8>) = match a {
@@ -699,6 +703,10 @@ pub fn build_raw(method: u16, class: u8, txid: &[u8; 12], attrs: &[WAttr], noise
                 }
                 (T_FINGERPRINT, v.to_be_bytes().to_vec())
             }
+            WAttr::FpWhole => {
+                whole.push(offset);
+                (T_FINGERPRINT, vec![0; 4])
+            }
         };
         out.extend_from_slice(&typ.to_be_bytes());
         out.extend_from_slice(&(value.len() as u16).to_be_bytes());
@@ -709,6 +717,10 @@ pub fn build_raw(method: u16, class: u8, txid: &[u8; 12], attrs: &[WAttr], noise
     }
     let l = (out.len() - 20) as u16;
     out[2..4].copy_from_slice(&l.to_be_bytes());
+    for offset in whole {
+        let v = hash::crc32(&out[..offset]) ^ FP_XOR;
+        out[offset + 4..offset + 8].copy_from_slice(&v.to_be_bytes());
+    }
     out
 }
 
